@@ -660,11 +660,11 @@ def strip_search(sr):
 SEL_OUT = {}
 
 
-def execute(pops, exe, tag, want_model=True, sel=None):
+def execute(pops, exe, tag, want_model=True, sel=None, num=None):
     d = os.path.join(BUILD, "run", "c02", str(os.getpid()))  # per process: concurrent checks must not share files
     os.makedirs(d, exist_ok=True)
     cf = os.path.join(d, "cases_%s.json" % tag)
-    json.dump({"base": BASE, "sel": sel or [],
+    json.dump({"base": BASE, "sel": sel or [], "num": num or [],
                "pops": [dict(p, searches=[strip_search(s) for s in p["searches"]]) for p in pops]}, open(cf, "w"))
     iout, mi, mout = (os.path.join(d, "%s_%s.out" % (x, tag)) for x in ("impl", "modelin", "model"))
     for p in (iout, mi, mout):
@@ -678,12 +678,15 @@ def execute(pops, exe, tag, want_model=True, sel=None):
     note = "" if rc == 0 else "go harness rc=%d: %s" % (rc, out[-1500:])
     impl = {}
     SEL_OUT.clear()
-    SEL_OUT.update({"impl": {}, "model": {}})
+    SEL_OUT.update({"impl": {}, "model": {}, "nimpl": {}, "nmodel": {}})
     if os.path.exists(iout):
         for line in open(iout):
             if line.startswith("L "):
                 t = line.split()
                 SEL_OUT["impl"][int(t[1])] = t[2:]
+            if line.startswith("N "):
+                t = line.rstrip("\n").split(" ", 2)
+                SEL_OUT["nimpl"][int(t[1])] = t[2]
             if line.startswith("R "):
                 t = line.split(None, 3)
                 impl[(int(t[1]), int(t[2]))] = parse_result(line.rstrip("\n"))
@@ -693,6 +696,8 @@ def execute(pops, exe, tag, want_model=True, sel=None):
     if want_model and exe and os.path.exists(mi):
         if sel:
             open(mi, "a").write(sel_model_text(sel))
+        if num:
+            open(mi, "a").write(num_model_text(num))
         rc2, out2, _ = run([exe, mi, mout], timeout=900)
         if rc2 != 0:
             note += " model driver rc=%d: %s" % (rc2, out2[-500:])
@@ -701,6 +706,8 @@ def execute(pops, exe, tag, want_model=True, sel=None):
                 t = line.split()
                 if t and t[0] == "L":
                     SEL_OUT["model"][int(t[1])] = t[2:]
+                if t and t[0] == "N":
+                    SEL_OUT["nmodel"][int(t[1])] = line.rstrip("\n").split(" ", 2)[2]
                 if t and t[0] == "M":
                     model[(int(t[1]), int(t[2]))] = {"fixed": parse_model(t[3]), "orig": parse_model(t[4]), "hyp": t[5] == "H=1",
                                                      "sat": [tuple(int(x) for x in p.split(".")) for p in t[6][4:].split(",") if p],
@@ -742,6 +749,41 @@ def sel_oracle(c):
         combos = {t for t in combos if not all(t[sq] in f for sq, f in zip(op["sqs"], op["forb"]))}
         out.append("%d:%s" % (0 if combos else 1, ",".join(sorted("".join(".%d" % x for x in t) for t in combos))))
     return out
+
+
+def gen_num_case(rng):
+    k = rng.choice([1, 1, 2, 2, 3])
+    subs = []
+    for _ in range(k):
+        nv = rng.randrange(1, 7)
+        pool = rng.choice([[0, 1, 2, 3], [5, 5, 7, 9, 9, 12], [0, 10, 20, 30, 40, 50], [3]])
+        vals = [rng.choice(pool) for _ in range(nv)]
+        subs.append({"factor": rng.choice([1, 1, -1, -1, 2]), "vals": vals,
+                     "init": sorted(rng.sample(range(nv), rng.randrange(1, nv + 1)))})
+    lo = sum(min(s["factor"] * v for v in s["vals"]) for s in subs)
+    hi = sum(max(s["factor"] * v for v in s["vals"]) for s in subs)
+    own = rng.randrange(0, 20)
+    target = rng.randrange(lo - 2, hi + 3)          # n + value sums cross zero around here
+    return {"kind": rng.choice(["num", "time"]), "n": -target - own, "own": own, "subs": subs}
+
+
+def num_oracle(c):
+    """n + sum of the selected values >= 0 for some allowed combination; the allowed ones that satisfy it stay."""
+    import itertools
+    n = c["n"] + c["own"]
+    ok = [t for t in itertools.product(*[s["init"] for s in c["subs"]])
+          if n + sum(s["factor"] * s["vals"][p] for s, p in zip(c["subs"], t)) >= 0]
+    return "1:" + ",".join(sorted("".join(".%d" % x for x in t) for t in ok)) if ok else "0:"
+
+
+def num_model_text(cases):
+    lines = []
+    for ci, c in enumerate(cases):
+        lines.append("NUM %d %d %d" % (ci, c["n"] + c["own"], len(c["subs"])))
+        for s in c["subs"]:
+            lines.append("vals " + " ".join(str(s["factor"] * v) for v in s["vals"]))
+            lines.append("init " + " ".join(map(str, s["init"])))
+    return "\n".join(lines) + ("\n" if lines else "")
 
 
 def sel_model_text(cases):
@@ -923,7 +965,7 @@ def public(pop):
 
 def load_case(path):
     obj = json.load(open(path))
-    if "sel" in obj:
+    if "sel" in obj or "num" in obj:
         return {"name": "sel", "files": [], "tags": [], "searches": [], "_truth": {}}
     pop = obj["pop"]
     finish_tags(pop)
@@ -966,7 +1008,7 @@ def main(tier, seed, replay=None):
     known_ids = {k.get("id") for k in known}
     nviol, nknown, stats = 0, 0, {"searches": 0, "nonempty": 0, "paged": 0, "more": 0, "tie_drift": 0, "model_compared": 0,
                                   "orig_model_differs": 0, "kinds": {}}
-    failures, model_bad, seen_known, sel_bad = [], [], set(), []
+    failures, model_bad, seen_known, sel_bad, num_bad = [], [], set(), [], []
     distinct = set()
     dist = {"files": {}, "limit": {}, "nkeys": {}, "tags": {}, "idrestricted": 0, "shadowed_pops": 0}
     note, go_s, npops, last = build_note, 0.0, 0, None
@@ -977,7 +1019,20 @@ def main(tier, seed, replay=None):
         sel = [] if replay else [gen_sel_case(rng) for _ in range(300 if tier == "quick" else 3000)]
         if replay and "sel" in json.load(open(replay)):
             sel, pops = [json.load(open(replay))["sel"]], []
-        impl, model, bnote, bgo = execute(pops, exe, "main", sel=sel)
+        num = [] if replay else [gen_num_case(rng) for _ in range(400 if tier == "quick" else 4000)]
+        if replay and "num" in json.load(open(replay)):
+            num, pops = [json.load(open(replay))["num"]], []
+        impl, model, bnote, bgo = execute(pops, exe, "main", sel=sel, num=num)
+        for ci, c in enumerate(num):
+            stats["relation_filter_cases"] = stats.get("relation_filter_cases", 0) + 1
+            want = num_oracle(c)
+            got_i, got_m = SEL_OUT["nimpl"].get(ci), SEL_OUT["nmodel"].get(ci)
+            if replay:
+                print("relation filter case:", c, "\nspec :", want, "\nimpl :", got_i, "\nmodel:", got_m)
+            if got_i != want and len(num_bad) < 3:
+                num_bad.append(("impl", c, want, got_i, got_m))
+            elif exe and got_m != want and len(num_bad) < 3:
+                num_bad.append(("model", c, want, got_i, got_m))
         note, go_s, npops = (note + " " + bnote).strip(), go_s + bgo, npops + len(pops)
         for ci, c in enumerate(sel):
             stats["sel_cases"] = stats.get("sel_cases", 0) + 1
@@ -1058,7 +1113,7 @@ def main(tier, seed, replay=None):
                 elif exe and res["status"] == "OK":
                     if len(model_bad) < 10:
                         model_bad.append((pop, sr, ("missing", "the model driver printed nothing for this search"), None, res))
-        if failures or model_bad or note or sel_bad:
+        if failures or model_bad or note or sel_bad or num_bad:
             break
     if replay:
         pop, sr = pops[0], pops[0]["searches"][0]
@@ -1090,6 +1145,16 @@ def main(tier, seed, replay=None):
         if m and res.get("status") == "OK" and same_obs(res, m["orig"]) and not same_obs(res, m["fixed"]):
             obj["explained_by"] = "identical to the faithful model of the unpatched searchStreams (fall-through after the sorted full scan / early exit with secondary sort keys): fixes/C02-*.patch not applied to this tree"
         violation(PROP, obj)
+        nviol += 1
+    for who, c, want, got_i, got_m in num_bad[:1]:
+        obj = {"property": PROP, "kind": "subquery-relation-filter", "num": c, "spec": want, "impl": got_i, "model": got_m,
+               "why": "number/time relation to sub-queries: answer or remaining combinations differ from 'n + own + sum of factor*value >= 0'",
+               "replay_cmd": "bin/check C02 --replay <this file>"}
+        if who == "impl":
+            violation(PROP, obj)
+        else:
+            obj["broken"] = "correspondence: the extracted number_filter (theories/Search.v) disagrees with the oracle although the implementation agrees"
+            violation(PROP, obj, no_input=True)
         nviol += 1
     for who, c, want, got_i, got_m in sel_bad[:1]:
         obj = {"property": PROP, "kind": "subquery-selection", "sel": c, "spec": want, "impl": got_i, "model": got_m,
